@@ -94,7 +94,8 @@ DEFAULTS = ['1', "'d'", 'None', '(1, 2)']
 ANNOTS = ['int', "'T'", 'str', 'list']
 POSARGS = ['1', 'q', 'g(2)', "'s'", 'q.r', '[1, 2]']
 FORMS = ['func', 'method', 'classmethod', 'staticmethod', 'init']
-VARIANTS = ['open', 'closed', 'multiline', 'nested', 'nested-closed']
+# 'trailing': the call is complete and MORE arguments follow the cursor (the argument being typed is not the last one)
+VARIANTS = ['open', 'closed', 'multiline', 'nested', 'nested-closed', 'trailing', 'trailing']
 
 
 def tok(t, name='', stars=0, df=False, an=False):
@@ -193,6 +194,16 @@ def render_program(defn, form, call, slot, variant, doc=None, ret=False):
     tail = []
     if variant in ('closed', 'multiline', 'nested-closed'):
         call_lines[-1] += '))' if outer else ')'
+        tail = ['y = 1']
+    elif variant == 'trailing':
+        # what follows the cursor does not change which parameter Python binds the argument under the cursor to;
+        # a positional may only follow while no keyword / star argument has been given; an empty slot gets nothing
+        # behind it (`f(1, <cursor>, 0)` would be a syntax error): it is rendered like 'closed'
+        simple = slot['t'] == 'frag' and all(c['t'] == 'pos' for c in call)
+        if st:
+            call_lines[-1] += ', 0, 0)' if simple else ', zz_=0)'
+        else:
+            call_lines[-1] += ')'
         tail = ['y = 1']
     src = '\n'.join(head + call_lines + tail) + ('\n' if tail else '')
     callee_col = len(outer)
@@ -522,13 +533,13 @@ def case_jobs(case, seedbit):
     form = case['form']
     h = (sum(len(k['name']) * 7 + k['stars'] for k in defn) + len(call) * 3 + len(slot['s']) + seedbit)
     variants = VARIANTS
-    jobs = [dict(defn=defn, form=form, call=call, slot=slot, variant=variants[h % 5], ret=bool(h % 2))]
+    jobs = [dict(defn=defn, form=form, call=call, slot=slot, variant=variants[h % len(variants)], ret=bool(h % 2))]
     dunder = any(k['name'].startswith('__') for k in defn)
     if form == 'func' and not dunder and case.get('mode') == 'index':
         # the same parameter list behind a bound first parameter
         f2 = ['method', 'classmethod', 'init', 'staticmethod'][h % 4]
         d2 = defn if f2 == 'staticmethod' else [tok('param', 'self' if f2 != 'classmethod' else 'cls')] + defn
-        jobs.append(dict(defn=d2, form=f2, call=call, slot=slot, variant=variants[(h + 1) % 5], ret=False,
+        jobs.append(dict(defn=d2, form=f2, call=call, slot=slot, variant=variants[(h + 1) % len(variants)], ret=False,
                          derived=True))
     return jobs
 
